@@ -202,7 +202,11 @@ Definition c_next_ok (old new : cstatus) : bool :=
 Fixpoint ends_with (suffix l : bytes) : bool :=
   beqb suffix l || match l with [] => false | _ :: l' => ends_with suffix l' end.
 (* a ".exit" address: the notation "hostname.exitnode.exit" of the Tor manual *)
-Definition is_exit_host (h : bytes) : bool := ends_with (str ".exit") h.
+(* host names are case-insensitive (Tor itself compares the ".exit" suffix without regard to case) *)
+Definition lower_ch (a : ascii) : ascii :=
+  if (65 <=? code a) && (code a <=? 90) then ch (code a + 32) else a.
+Definition lower (h : bytes) : bytes := map lower_ch h.
+Definition is_exit_host (h : bytes) : bool := ends_with (str ".exit") (lower h).
 Fixpoint contains (needle l : bytes) : bool :=
   prefixb needle l || match l with [] => false | _ :: l' => contains needle l' end.
 
@@ -617,54 +621,6 @@ Fixpoint chk_ops (k : chk) (ops : list op) (tr : list (list ev)) : bool :=
 
 Definition oracle (ops : list op) (tr : list (list ev)) : bool := chk_ops chk0 ops tr.
 
-(* ---------------------------------------------------------------- input classes of the open findings *)
-(* C09-F2: an attachable target whose name contains ".exit" without being a .exit address *)
-Definition exit_inside (h : bytes) : bool := contains (str ".exit") h && negb (is_exit_host h).
-(* C09-F3: PriorityAttacher entries added with a priority below that of an earlier entry *)
-Fixpoint prio_sorted (ss : list sub) : bool :=
-  match ss with
-  | x :: ((y :: _) as r) => (sb_prio x <=? sb_prio y) && prio_sorted r
-  | _ => true
-  end.
-(* C09-F1: a stream appears from the local address of a via-circuit connection whose circuit is not BUILT *)
-Definition find_addr (ip port : N) (l : list ((N * N) * nat)) : option nat :=
-  match find (fun p => (fst (fst p) =? ip) && (snd (fst p) =? port)) l with Some p => Some (snd p) | None => None end.
-Definition find_kid (k : nat) (l : list (nat * nat)) : option nat :=
-  match find (fun p => Nat.eqb (fst p) k) l with Some p => Some (snd p) | None => None end.
-Definition via_circuit_usable (tt : tor) (src : source) : bool :=
-  match src with
-  | SrcIp ip port =>
-      match find_addr ip port (addrs tt) with
-      | Some k => match find_kid k (kids tt) with
-                  | Some oid => match nth_error (incs tt) oid with
-                                | Some i => cstatus_eqb (i_st i) CBuilt
-                                | None => true
-                                end
-                  | None => true
-                  end
-      | None => true
-      end
-  | _ => true
-  end.
-
-(* an operation outside all three classes *)
-Definition clean_op (tt : tor) (o : op) : bool :=
-  match o with
-  | OStream sid st _ host _ src _ =>
-      if first_sight tt sid st then
-        match inst tt with
-        | None => true
-        | Some v => negb (exit_inside host) &&
-                    match v with VCirc => is_exit_host host || via_circuit_usable tt src | _ => true end
-        end
-      else true
-  | OPrioAdd j p => prio_sorted (subs tt ++ [{| sb_j := j; sb_prio := p; sb_live := true |}])
-  | _ => true
-  end.
-
-Fixpoint clean_from (tt : tor) (ops : list op) : bool :=
-  match ops with
-  | [] => true
-  | o :: r => clean_op tt o && clean_from (tor_step tt o) r
-  end.
-Definition clean (ops : list op) : bool := clean_from tor0 ops.
+(* (the findings C09-F1 via-circuit stream after its circuit closed, C09-F2 target merely containing ".exit",
+   C09-F3 PriorityAttacher heap-array order were repaired in /repo: f392c3b, abe169c, c8582a8; no input class
+   is excluded any more) *)
